@@ -59,7 +59,10 @@ def run_one(schema: dict, rng, exercise: int) -> dict:
             # reads rooted at a global are judged exactly (holder object + attribute) by check_closed on the world model;
             # the name inclusion covers the reads rooted at parameters / locals (cls, self, value)
             rg = c17_run.real_globals(rec)
-            reads += [("*", a) for r, a in c17_run.holder_attr_reads(rec) if r not in rg]
+            # (an attribute compiled on demand - `if '<attr>' not in x.__dict__: CodeBuilder(..)...` right before the read - is
+            #  installed by that call: stated exception, like the lazy stub)
+            reads += [("*", a) for r, a in c17_run.holder_attr_reads(rec)
+                      if r not in rg and not (f"'{a}' not in " in rec["code"] and "CodeBuilder(" in rec["code"])]
         sets += [("*", a) for r, a in c17_run.holder_attr_sets(rec)]
     # rendering: independent reading of every field annotation (Render.rty) + what the real type_name says + whether the
     # generated error path of a required field contains it
@@ -83,6 +86,21 @@ def run_one(schema: dict, rng, exercise: int) -> dict:
                 if (term, exp) not in seen_rc and len(render_cases) < 60:
                     seen_rc.add((term, exp))
                     render_cases.append([term, exp])
+                # the defaultdict factory is the rendering of the value type pasted as code (unpack.py:1281-1288)
+                import collections as _c
+                import typing as _t
+                if _t.get_origin(t) is _c.defaultdict and len(_t.get_args(t)) == 2 and c in d.get("ROOTS", []):
+                    try:
+                        fexp = type_name(_t.get_args(t)[1])
+                    except Exception:
+                        fexp = None
+                    own_f = [rec["code"] for rec in sr.programs
+                             if f"Argument for {c.__module__}.{c.__qualname__}.__mashumaro_from_" in rec["code"] and "collections.defaultdict(" in rec["code"]]
+                    if fexp is not None and "<locals>" not in fexp:
+                        for code in own_f:
+                            contain["checked"] += 1
+                            if f"collections.defaultdict({fexp}, " not in code:
+                                contain["missing"].append(f"{c.__name__}.{fn}: defaultdict factory {fexp}")
                 fld = next((f for f in dataclasses.fields(c) if f.name == fn), None)
                 if (c in d.get("ROOTS", []) and fld is not None and fld.default is dataclasses.MISSING
                         and fld.default_factory is dataclasses.MISSING and fld.init):
